@@ -4,7 +4,9 @@
 package c19
 
 import (
+	"context"
 	"encoding/json"
+	"errors"
 	"fmt"
 	"math"
 	"math/rand"
@@ -12,6 +14,7 @@ import (
 	"runtime"
 	"runtime/debug"
 	"sort"
+	"strconv"
 	"strings"
 	"sync"
 	"time"
@@ -24,6 +27,7 @@ import (
 	"github.com/metrico/qryn/ctrl/qryn/maintenance"
 
 	"verif/harness/engines/cat"
+	"verif/harness/engines/chtcp"
 	"verif/harness/engines/run"
 	"verif/harness/props/reg"
 )
@@ -796,6 +800,7 @@ func Main(c *run.Ctx) {
 	c.Assume("NOW() strictly increases from statement to statement (logical clock): argMax(value, inserted_at) picks the latest INSERT; real NOW() has 1 s resolution, ties are not modelled")
 	c.Assume("storage policies tiered and archive hold every disk; the server's default policy holds every disk, or (half of the generated scenarios) only the disk default - then MODIFY TTL ... TO DISK is refused (code 450) for a table that is not on a configured policy, and configurations without a policy have no tier moves. Policy compatibility on MODIFY SETTING and readonly settings are not modelled")
 	c.Assume("with no storage policy configured nothing is required of a table's storage policy")
+	c.Assume("node lists: every other list goes through the production RotateAll/rotateDB over the native protocol to one fake server (E-CHTCP) per node that executes each statement text on the node's catalogue; result sets are one String/UInt64 column")
 	nScen := c.Pick(200, 5000)
 	rng := c.Rng("c19-scenarios")
 	scen := fixedScenarios()
@@ -864,10 +869,15 @@ func nodeListMonitor(c *run.Ctx) {
 	r := c.Rng("c19-node-lists")
 	for k := 0; k < c.Pick(12, 120); k++ {
 		n := 2 + r.Intn(3)
+		// every other list is rotated by the production entry point itself (RotateAll -> rotateDB: dial, parse the
+		// ttl_policy timeouts, Rotate) against one fake native-protocol server (E-CHTCP) per node in front of the
+		// node's catalogue; the others through the replaced entry point, without sockets
+		native := k%2 == 1
 		type node struct {
 			db  config.ClokiBaseDataBase
 			cfg Cfg
 			st  *cat.Catalogue
+			srv *chtcp.Server
 		}
 		var nodes []*node
 		clusters := []string{"", "main", "main", "eu"}
@@ -885,9 +895,26 @@ func nodeListMonitor(c *run.Ctx) {
 				db.TTLPolicy = append(db.TTLPolicy, struct {
 					Timeout string `json:"ttl_policy" mapstructure:"ttl_policy" default:""`
 					MoveTo  string `json:"move_to" mapstructure:"move_to" default:""`
-				}{Timeout: time.Duration(t.Seconds * float64(time.Second)).String(), MoveTo: t.Disk})
+				}{Timeout: spellTimeout(r, t.Seconds, native), MoveTo: t.Disk})
 			}
-			nodes = append(nodes, &node{db: db, cfg: cfg, st: st})
+			nd := &node{db: db, cfg: cfg, st: st}
+			if native {
+				srv, err := chtcp.Start()
+				if err != nil {
+					c.Undecided("node list: fake server: " + err.Error())
+					return
+				}
+				cn := cat.NewConn(st, dbName, nil)
+				var mu sync.Mutex
+				srv.Handler = func(_ string, body string) (*chtcp.Result, *chtcp.Exc) {
+					mu.Lock()
+					defer mu.Unlock()
+					return serveStatement(cn, body)
+				}
+				nd.srv = srv
+				nd.db.Host, nd.db.Port = "127.0.0.1", uint32(srv.Port())
+			}
+			nodes = append(nodes, nd)
 		}
 		byHost := map[string]*node{}
 		var dbs []config.ClokiBaseDataBase
@@ -895,9 +922,7 @@ func nodeListMonitor(c *run.Ctx) {
 			byHost[nd.db.Host] = nd
 			dbs = append(dbs, nd.db)
 		}
-		restore := ctrl.VerifSetProject("qryn",
-			func(*config.ClokiBaseDataBase, logger.ILogger) error { return nil }, nil,
-			func(base []config.ClokiBaseDataBase, lg logger.ILogger) error {
+		replaced := func(base []config.ClokiBaseDataBase, lg logger.ILogger) error {
 				// what maintenance.RotateAll does per node, on the node's catalogue instead of a dialled connection
 				for _, d := range base {
 					nd := byHost[d.Host]
@@ -917,7 +942,12 @@ func nodeListMonitor(c *run.Ctx) {
 					}
 				}
 				return nil
-			})
+			}
+		if native {
+			replaced = nil // keep the production entry point
+		}
+		restore := ctrl.VerifSetProject("qryn",
+			func(*config.ClokiBaseDataBase, logger.ILogger) error { return nil }, nil, replaced)
 		conf := clconfig.New(clconfig.CLOKI_WRITER, nil, "", "")
 		conf.Setting.DATABASE_DATA = dbs
 		err := func() (err error) {
@@ -929,8 +959,24 @@ func nodeListMonitor(c *run.Ctx) {
 			return ctrl.Rotate(conf, "qryn")
 		}()
 		restore()
-		c.Case(fmt.Sprintf("node-list|n=%d", n))
+		for _, nd := range nodes {
+			if nd.srv != nil {
+				c.Event("statements served over the native protocol", len(nd.srv.Since(0, chtcp.KQuery)))
+				for _, e := range nd.srv.Since(0, chtcp.KError) {
+					c.Undecided("node list: fake native server: " + e.Body)
+				}
+				nd.srv.Close()
+			}
+		}
+		c.Case(fmt.Sprintf("node-list|n=%d|native=%v", n, native))
 		c.Floor("node lists rotated through ctrl.Rotate", 0, 1)
+		if native {
+			c.Floor("node lists rotated by the production RotateAll over the native protocol", 0, 1)
+		}
+		if err != nil && strings.Contains(err.Error(), "unmodelled") {
+			c.Undecided("node list: " + err.Error())
+			continue
+		}
 		if err != nil {
 			c.Violation("node-list/rotate-fails", fmt.Sprintf("ctrl.Rotate over %d healthy nodes failed: %v", n, err), map[string]any{"nodes": dbs})
 			continue
@@ -954,6 +1000,64 @@ func nodeListMonitor(c *run.Ctx) {
 		}
 	}
 	c.Floor("node lists rotated through ctrl.Rotate", c.Pick(12, 120), 0)
+	c.Floor("node lists rotated by the production RotateAll over the native protocol", c.Pick(6, 60), 0)
+}
+
+// spellTimeout writes a tier's timeout as an operator may: Go's own rendering, or (varied) a decimal number of
+// the largest unit in which it is a whole or a half number (1.5h, 90m, 0.5m) - all exact for time.ParseDuration.
+func spellTimeout(r *rand.Rand, seconds float64, varied bool) string {
+	d := time.Duration(seconds * float64(time.Second))
+	if !varied || d <= 0 {
+		return d.String()
+	}
+	var forms []string
+	for _, u := range []struct {
+		d time.Duration
+		s string
+	}{{time.Hour, "h"}, {time.Minute, "m"}, {time.Second, "s"}} {
+		if d%(u.d/2) == 0 {
+			forms = append(forms, strconv.FormatFloat(float64(d)/float64(u.d), 'f', -1, 64)+u.s)
+		}
+	}
+	forms = append(forms, d.String())
+	return forms[r.Intn(len(forms))]
+}
+
+// serveStatement executes one statement text (arguments already bound by the client) on the catalogue.
+func serveStatement(cn *cat.Conn, body string) (*chtcp.Result, *chtcp.Exc) {
+	fail := func(err error) (*chtcp.Result, *chtcp.Exc) {
+		var ex *cat.Exception
+		if errors.As(err, &ex) {
+			return nil, &chtcp.Exc{Code: int(ex.Code), Name: ex.Name, Message: ex.Message}
+		}
+		return nil, &chtcp.Exc{Code: 1000, Name: "DB::Exception", Message: "unmodelled: " + err.Error()}
+	}
+	t := strings.ToUpper(strings.TrimSpace(body))
+	if !strings.HasPrefix(t, "SELECT") && !strings.HasPrefix(t, "SHOW") {
+		if err := cn.Exec(context.Background(), body); err != nil {
+			return fail(err)
+		}
+		return nil, nil
+	}
+	rows, err := cn.Query(context.Background(), body)
+	if err != nil {
+		return fail(err)
+	}
+	res := &chtcp.Result{Name: "_value", Type: "String"}
+	for rows.Next() {
+		var sv string
+		if err := rows.Scan(&sv); err != nil {
+			var uv uint64
+			if err2 := rows.Scan(&uv); err2 != nil {
+				return fail(fmt.Errorf("result row: %v", err))
+			}
+			res.Type = "UInt64"
+			res.Values = append(res.Values, uv)
+			continue
+		}
+		res.Values = append(res.Values, sv)
+	}
+	return res, nil
 }
 
 // Replay re-runs one stored case verbosely.
